@@ -423,6 +423,10 @@ package trend
 //@ step[C01] "d" forall j :: 0 <= j && j < len(ds[0]) ==> ds[0][j] == smaS(smaS(stochKS(high, low, closing, kdj.MovingMax.Period), kdj.Sma1.Period), kdj.Sma2.Period)[j] && ds[1][j] == smaS(smaS(stochKS(high, low, closing, kdj.MovingMax.Period), kdj.Sma1.Period), kdj.Sma2.Period)[j]
 //@ ensures[C01] "documented" forall k :: 0 <= k && k < len(result0) ==> result0[k] == smaS(stochKS(high, low, closing, kdj.MovingMax.Period), kdj.Sma1.Period)[k + kdj.Sma2.Period - 1] && result1[k] == smaS(smaS(stochKS(high, low, closing, kdj.MovingMax.Period), kdj.Sma1.Period), kdj.Sma2.Period)[k] && result2[k] == 3 * smaS(stochKS(high, low, closing, kdj.MovingMax.Period), kdj.Sma1.Period)[k + kdj.Sma2.Period - 1] - 2 * smaS(smaS(stochKS(high, low, closing, kdj.MovingMax.Period), kdj.Sma1.Period), kdj.Sma2.Period)[k]
 
+// Direction = Abs(Close - Close Period Ago), Volatility = MovingSum(Period, Abs(Close - Previous Close)), ER = Direction / Volatility,
+// SC = (ER * (2/(Fast + 1) - 2/(Slow + 1)) + (2/(Slow + 1)))^2, KAMA = Previous KAMA + SC * (Price - Previous KAMA)
+//@ stream absChS(c stream)[i] = abs(c[i+1] - c[i])
+//@ stream kamaScS(c stream, P int, F int, S int)[j] = powr(abs(c[j + P] - c[j]) / winS(absChS(c), P)[j] * (2 / real(F + 1) - 2 / real(S + 1)) + 2 / real(S + 1), 2)
 //@ func Kama.Compute
 //@ requires k.ErPeriod >= 1 && consumed(closings) == 0
 //@ ensures[C02] len(result) == max(0, len(closings) - (k.IdlePeriod()))
@@ -430,3 +434,11 @@ package trend
 //@ ensures[C04] forall kk :: 0 <= kk && kk < len(result) ==> hor(result, kk) <= hor(closings, kk + (k.IdlePeriod()))
 //@ loop#0 invariant consumed(closingsSplice[2]) == sent(kama) + 1 && consumed(scs) == sent(kama) && !closed(kama)
 //@ loop#0 invariant forall j :: 0 <= j && j < sent(kama) ==> hor(kama, j) <= hor(closings, j + k.ErPeriod)
+//@ loop#0 invariant prevKama == kamaR(closings, scs, k.ErPeriod, sent(kama) - 1)
+//@ loop#0 invariant forall j :: 0 <= j && j < sent(kama) ==> kama[j] == kamaR(closings, scs, k.ErPeriod, j)
+//@ step[C01] "changes" forall i :: 0 <= i && i < len(closings) - 1 ==> res(Abs, 1)[i] == absChS(closings)[i]
+//@ use psum_cong(res(Abs, 1), absChS(closings), _)
+//@ step[C01] "volatility" forall j :: 0 <= j && j < len(volatilitys) ==> volatilitys[j] == winS(absChS(closings), k.ErPeriod)[j]
+//@ step[C01] "efficiency-ratio" forall j :: 0 <= j && j < len(ers) ==> ers[j] == abs(closings[j + k.ErPeriod] - closings[j]) / winS(absChS(closings), k.ErPeriod)[j]
+//@ guarantees[C01] "smoothing-constant" forall j :: 0 <= j && j < len(scs) ==> scs[j] == kamaScS(closings, k.ErPeriod, k.FastScPeriod, k.SlowScPeriod)[j]
+//@ guarantees[C01] "documented" forall kk :: 0 <= kk && kk < len(result) ==> result[kk] == kamaR(closings, scs, k.ErPeriod, kk)
